@@ -8,12 +8,18 @@ from __future__ import annotations
 import itertools
 
 KINDS = ("opt", "list", "dict", "vtuple", "member", "bare")
+# links that reach the target class through a NewType / a value alias declared AFTER the classes (`next: Optional[NextId]`,
+# `NextId = NewType("NextId", Node)`): only in the small extra topologies (extra_topologies), not in the full product
+KINDS_X = ("optnt", "optalias")
 
 
 def _ann(kind, tgt, future, hname=None):
     q = tgt if future else f'"{tgt}"'
     if kind == "opt":
         return f"typing.Optional[{q}]", "None"
+    if kind in KINDS_X:
+        wq = hname if future else f'"{hname}"'
+        return f"typing.Optional[{wq}]", "None"
     if kind == "list":
         return f"list[{q}]", "dataclasses.field(default_factory=list)"
     if kind == "dict":
@@ -46,20 +52,42 @@ class Topo:
         self.links = links
 
     def key(self):
-        return f"n{self.n}:" + ";".join(",".join(f"{t}{k[0]}" for t, k in ls) for ls in self.links)
+        ab = {"optnt": "N", "optalias": "A"}
+        return f"n{self.n}:" + ";".join(",".join(f"{t}{ab.get(k, k[0])}" for t, k in ls) for ls in self.links)
 
     def kinds(self):
         return sorted({k for ls in self.links for _, k in ls})
 
     def source(self, future, nested=False, flavour="dc"):
         """nested=True: every class is defined inside `class Outer:` and referred to as Outer.C<i>.
-        flavour: dc (dataclass) | td (TypedDict, total=False) | nt (typing.NamedTuple)."""
+        flavour: dc (dataclass) | td (TypedDict, total=False) | nt (typing.NamedTuple) | init (plain class, hinted only by its `__init__`)."""
         lines = ["from __future__ import annotations"] if future else []
         lines += ["import dataclasses, typing", ""]
         helpers = []
         classes = []
+        post = []  # wrappers of the classes, declared after them
         q = "Outer." if nested else ""
         for i, ls in enumerate(self.links):
+            if flavour == "init":
+                params, sets = ["self", "v: int = 0"], ["        self.v = v"]
+                for j, (t, k) in enumerate(ls):
+                    hname = f"H{i}_{j}"
+                    if k == "optnt":
+                        post.append(f'{hname} = typing.NewType("{hname}", C{t})')
+                    elif k == "optalias":
+                        post.append(f'{hname} = typing.TypeAliasType("{hname}", C{t})')
+                    a, d = _ann(k, f"{q}C{t}", future, f"{q}{hname}")
+                    if k == "member":
+                        tq = f"{q}C{t} | None" if future else f'"{q}C{t} | None"'
+                        helpers.append(f"@dataclasses.dataclass\nclass {hname}:\n    x: {tq} = None\n")
+                    params.append(f"l{j}: {a} = None")
+                    dflt = {"list": "[]", "dict": "{}", "vtuple": "()", "member": f"{q}{hname}()"}.get(k)
+                    sets.append(f"        self.l{j} = l{j}" + (f" if l{j} is not None else {dflt}" if dflt else ""))
+                body = [f"class C{i}:", f"    def __init__({', '.join(params)}):"] + sets + [
+                    "    def __eq__(self, other):", "        return type(other) is type(self) and vars(other) == vars(self)",
+                    "    def __repr__(self):", "        return type(self).__name__ + repr(vars(self))"]
+                classes.append("\n".join(body) + "\n")
+                continue
             if flavour == "td":
                 body = [f"class C{i}(typing.TypedDict, total=False):", "    v: int"]
             elif flavour == "nt":
@@ -68,6 +96,10 @@ class Topo:
                 body = [f"@dataclasses.dataclass", f"class C{i}:", "    v: int = 0"]
             for j, (t, k) in enumerate(ls):
                 hname = f"H{i}_{j}"
+                if k == "optnt":
+                    post.append(f'{hname} = typing.NewType("{hname}", C{t})')
+                elif k == "optalias":
+                    post.append(f'{hname} = typing.TypeAliasType("{hname}", C{t})')
                 a, d = _ann(k, f"{q}C{t}", future, f"{q}{hname}")
                 if k == "member" and nested:
                     d = f"dataclasses.field(default_factory=lambda: Outer.{hname}())"
@@ -81,14 +113,15 @@ class Topo:
                     tq = f"{q}C{t} | None" if future else f'"{q}C{t} | None"'
                     helpers.append(f"@dataclasses.dataclass\nclass {hname}:\n    x: {tq} = None\n")
             classes.append("\n".join(body) + "\n")
-        body = "\n".join(helpers) + "\n" + "\n".join(classes)
+        body = "\n".join(helpers) + "\n" + "\n".join(classes) + "\n" + "\n".join(post) + "\n"
         if nested:
             body = "class Outer:\n" + "\n".join(("    " + ln if ln else ln) for ln in body.split("\n")) + "\n"
         return "\n".join(lines) + "\n" + body
 
     # ---- values: follow the first link for deep chains, all links while depth <= full
     def wire(self, node, d, full=2, level=0, ints=False):
-        w = {"v": 7 if ints else "7"}
+        pv = 7 + min(level, 10**3) % 1000  # the payload tells the levels apart (a level converted with another level's data is visible)
+        w = {"v": pv if ints else str(pv)}
         for j, (t, k) in enumerate(self.links[node]):
             go = level < d and (j == 0 or level < full)
             child = self.wire(t, d, full, level + 1, ints) if go else None
@@ -96,7 +129,7 @@ class Topo:
                 # a bare link always carries a value; at the horizon it is a terminal node (its own links stopped)
                 w[f"l{j}"] = child if go else self.wire(t, 0, full, 10**6, ints)
                 continue
-            if k == "opt":
+            if k == "opt" or k in KINDS_X:
                 w[f"l{j}"] = child
             elif k == "list":
                 w[f"l{j}"] = [child] if go else []
@@ -109,14 +142,14 @@ class Topo:
         return w
 
     def expected(self, ns, node, d, full=2, level=0, flavour="dc"):
-        kw = {"v": 7}
+        kw = {"v": 7 + min(level, 10**3) % 1000}
         for j, (t, k) in enumerate(self.links[node]):
             go = level < d and (j == 0 or level < full)
             child = self.expected(ns, t, d, full, level + 1, flavour) if go else None
             if k == "bare":
                 kw[f"l{j}"] = child if go else self.expected(ns, t, 0, full, 10**6, flavour)
                 continue
-            if k == "opt":
+            if k == "opt" or k in KINDS_X:
                 kw[f"l{j}"] = child
             elif k == "list":
                 kw[f"l{j}"] = [child] if go else []
@@ -175,11 +208,19 @@ def _has_cycle(n, links):
     return dfs(0)
 
 
-def topologies(n, *, cyclic_only=True, max_links=None):
+def extra_topologies():
+    """Topologies with at least one link through a NewType / value alias of the target: one class with <= 2 links, two classes with one link each."""
+    out = []
+    for n, ml in ((1, 2), (2, 2)):
+        out += [t for t in topologies(n, max_links=ml, kinds=KINDS + KINDS_X) if any(k in KINDS_X for k in t.kinds())]
+    return out
+
+
+def topologies(n, *, cyclic_only=True, max_links=None, kinds=KINDS):
     """All topologies over exactly n classes with 1-2 links per class and <= n+1 links in total."""
     max_links = max_links if max_links is not None else n + 1
     per_node = []
-    one = [((t, k),) for t in range(n) for k in KINDS]
+    one = [((t, k),) for t in range(n) for k in kinds]
     two = [(a[0], b[0]) for a in one for b in one]
     opts = one + two
     out, seen = [], set()
